@@ -267,11 +267,18 @@ def run_shard(spec, ctx, acc):
                                        "payload": __import__("hashlib").shake_256(bytes([fill])).digest(n), "defname": None,
                                        "long": True},
             st.one_of(st.integers(4090, 4100), st.integers(4093, 9000), st.integers(8185, 8200),
+                      st.tuples(st.integers(1, 16), st.sampled_from([-8, -6, -4, -2, -1, 0, 1])).map(
+                          lambda kd: min(65535, 4096 * kd[0] + kd[1])),
                       st.sampled_from([65534, 65535, 65536, 65537, 70000])),
             st.integers(0, 255), st.sampled_from([b"\x04\x02", b"\x77\x01", b"\x02\x15", b"\x0a\x04"]),
             st.just(0))
         core.hyp_search(acc, longs, check, seed=core.derive(ctx["seed"], PROP, "long"),
-                        max_examples=40 if tier == "quick" else 400, known=known, shrink=False)
+                        max_examples=90 if tier == "quick" else 800, known=known, shrink=False)
+        for k in range(1, 17):  # every (length + 4) that is a multiple of 4096, zero-state content
+            n = min(65535, 4096 * k - 4)
+            case = {"kind": "build", "mode": 0, "clsid": b"\x04\x02", "route": "payload", "defname": None,
+                    "payload": codec.zero_state_payload(b"\x04", b"\x02", n, 4096, fill=k), "long": True}
+            core.handle(acc, check(case), case, known)
         return
     # config helpers
     db = pyubx2.UBX_CONFIG_DATABASE
